@@ -1784,6 +1784,24 @@ class Interp:
             done_, res_ = self._unbound_builtin(callee.ref, list(args), kwargs)
             if done_:
                 return res_
+            if callee.ref.startswith('ext:operator.') and len(args) == 2 and not kwargs:
+                # a function of the operator module as a first-class value (a strategy record, a table of comparisons)
+                opname = callee.ref.rpartition('.')[2].strip('_')
+                cmpmap = {'lt': ast.Lt, 'le': ast.LtE, 'eq': ast.Eq, 'ne': ast.NotEq, 'gt': ast.Gt, 'ge': ast.GtE}
+                binmap = {'add': ast.Add, 'sub': ast.Sub, 'mul': ast.Mult, 'truediv': ast.Div, 'floordiv': ast.FloorDiv, 'mod': ast.Mod,
+                          'pow': ast.Pow, 'and': ast.BitAnd, 'or': ast.BitOr, 'xor': ast.BitXor}
+                if opname in cmpmap:
+                    return self._compare(cmpmap[opname](), args[0], args[1], None)
+                if opname in binmap:
+                    return self._binop(binmap[opname](), args[0], args[1])
+                if opname == 'contains':
+                    return self._contains(args[0], args[1])
+            if callee.ref in ('builtin:bin', 'builtin:oct', 'builtin:hex', 'builtin:chr', 'builtin:ord', 'builtin:repr', 'builtin:round', 'builtin:min', 'builtin:max',
+                              'builtin:sum', 'builtin:sorted', 'builtin:tuple', 'builtin:list', 'builtin:divmod') and all(_concrete(a_) for a_ in args) and not kwargs:
+                try:
+                    return getattr(_builtins, callee.ref[8:])(*args)
+                except Exception as exc:
+                    raise ExcRaised(_exc_ref(exc))
             if callee.ref in ('builtin:bool', 'builtin:int', 'builtin:float', 'builtin:str', 'builtin:len', 'builtin:abs'):
                 fn_ = {'bool': bool, 'int': int, 'float': float, 'str': str, 'len': len, 'abs': abs}[callee.ref.split(':')[1]]
                 if fn_ is bool and args and isinstance(args[0], Rec):
